@@ -19,6 +19,7 @@ import (
 	"runtime/debug"
 	"strings"
 	"sync"
+	"sync/atomic"
 	"testing"
 	"time"
 
@@ -185,6 +186,7 @@ func TestVFC05ClientStoragePrograms(t *testing.T) {
 		}
 
 		var wg sync.WaitGroup
+		var progress atomic.Int64
 		start := make(chan struct{})
 		spawn := func(steps []vfC05SStep, rounds int) {
 			wg.Add(1)
@@ -194,6 +196,7 @@ func TestVFC05ClientStoragePrograms(t *testing.T) {
 				for r := 0; r < rounds; r++ {
 					for i, st := range steps {
 						do(st, i+r)
+						progress.Add(1)
 						if i%4 == 3 {
 							runtime.Gosched()
 						}
@@ -210,12 +213,10 @@ func TestVFC05ClientStoragePrograms(t *testing.T) {
 		done := make(chan struct{})
 		go func() { wg.Wait(); close(done) }()
 		close(start)
-		select {
-		case <-done:
-		case <-time.After(60 * time.Second):
+		if !vfkit.WaitProgress(done, &progress, 60*time.Second) {
 			buf := make([]byte, 1<<20)
 			n := runtime.Stack(buf, true)
-			t.Fatalf("stall: the registry program did not finish within 60s\n%s", buf[:n])
+			t.Fatalf("stall: the registry program completed no operation for 60s\n%s", buf[:n])
 		}
 
 		vfC05S.Eval()
